@@ -122,8 +122,12 @@ func B2I(b bool) int {
 func ExpectPanic(sub string) {}
 // Symbolic reports whether the harness runs under the symbolic executor.
 func Symbolic() bool { return false }
-// MapOrder asks that the next range over a map with n entries follows a symbolic permutation.
+// MapOrder: from here on every range over a map follows a symbolic permutation (under the
+// symbolic executor); natively the Go runtime picks the order.
 func MapOrder(name string) {}
+// Reps is 1 under the symbolic executor (which explores the iteration orders itself) and n in a
+// native replay, where a comparison of two runs has to be repeated to meet differing orders.
+func Reps(n int) int { return n }
 `
 
 type Program struct {
